@@ -569,6 +569,16 @@ class Program:
             if d:
                 head = d.split(".")[0]
                 if env is not None and head in env:
+                    # a local alias of a class (`XL_CT = XL_CHART_TYPE`): enum members and class constants through it
+                    hv = env[head]
+                    if isinstance(hv, ClassRef) and d.count(".") == 1:
+                        if self.is_enum(hv.cls):
+                            for m in self._enum_members_mro(hv.cls):
+                                if m.name == node.attr:
+                                    return m
+                        a = self.lookup_attr(hv.cls, node.attr)
+                        if a:
+                            return self.const(a[1], a[0].module, None, a[0], depth + 1)
                     return Unknown("attr of env value", node)
                 if head in ("self", "cls") and cls is not None:
                     a = self.lookup_attr(cls, d.split(".", 1)[1]) if d.count(".") == 1 else None
